@@ -19,19 +19,21 @@ func (Engine) Name() string { return "syncsim" }
 func (Engine) Scenarios(property string) []string {
 	switch property {
 	case "C01":
-		return []string{"model"}
+		return []string{"model", "disk"}
 	case "C02":
-		return []string{"model"}
+		return []string{"model", "disk"}
 	case "C03":
-		return []string{"model-untracked"}
+		return []string{"model-untracked", "disk-untracked"}
 	case "C04":
-		return []string{"model"}
+		return []string{"model", "disk"}
 	case "C05":
 		return []string{"model-outcomes"}
 	case "C06":
 		return []string{"model", "model-untracked"}
+	case "C08":
+		return []string{"disk", "disk-untracked"}
 	case "C11":
-		return []string{"model-halt"}
+		return []string{"model-halt", "disk-halt"}
 	case "C18":
 		return []string{"model-exec"}
 	case "C29":
@@ -44,7 +46,7 @@ func (Engine) Generate(property, scenario string, seed uint64, tier string) *sim
 	p := &simkit.Plan{Engine: "syncsim", Scenario: scenario, Property: property, Seed: seed, Cfg: map[string]int64{}}
 	r := simkit.NewRand(seed, 1)
 	switch scenario {
-	case "model", "model-untracked", "model-outcomes", "model-halt", "model-exec", "lifecycle":
+	case "model", "model-untracked", "model-outcomes", "model-halt", "model-exec", "lifecycle", "disk", "disk-untracked", "disk-halt":
 		genModel(p, r, tier)
 	default:
 		genComponent(p, r, tier)
@@ -54,7 +56,7 @@ func (Engine) Generate(property, scenario string, seed uint64, tier string) *sim
 
 func (Engine) Execute(t *testing.T, plan *simkit.Plan) *simkit.Result {
 	switch plan.Scenario {
-	case "model", "model-untracked", "model-outcomes", "model-halt", "model-exec", "lifecycle":
+	case "model", "model-untracked", "model-outcomes", "model-halt", "model-exec", "lifecycle", "disk", "disk-untracked", "disk-halt":
 		return execSession(t, plan)
 	}
 	if r := execComponent(t, plan); r != nil {
